@@ -82,6 +82,13 @@ def make_jobs(rnd, tier):
         for _ in range(per):
             a = rnd.choice([0, 1, 2, -1, 1, 0])
             add(p, n, [["input", 0, "privbool", 1], ["input", 1, "priv", 0], ["bin", 2, "and", 0, 1]], [a, 1], "boolean-declaration", "privbool/priv")
+        # ... and once more after the same object was used as a boolean inside a guarded region (true or false guard): the use after
+        # the region needs its own, unguarded, declaration
+        for op1, op2 in (("and", "or"), ("or", "and"), ("xor", "and"), ("and", "and")):
+            for a in (0, 1, 2, -1):
+                for g in (0, 1):
+                    add(p, n, [["input", 0, "privbool", 1], ["input", 1, "priv", 0], ["input", 2, "priv", 2],
+                               ["guarded", 2, [["bin", 3, op1, 0, 1]]], ["bin", 4, op2, 0, 1]], [a, 1, g], "boolean-declaration-after-guarded-use", "privbool/priv")
     return jobs
 
 
